@@ -121,6 +121,21 @@ CHECKS = {
         'technique': 'TLA+ design model (PluginChain) exhaustively checked + TLC-generated programs executed on the real plugin chain + '
                      'TLC trace validation (TraceChain) of the recorded hook-call logs',
     },
+    'C10': {
+        'text': 'Resources.tla states the descriptor discipline of one connection (open / register / unregister / close / end over '
+                'descriptor NUMBERS that the kernel reuses) and TLC checks NoResidue and NeverTwice exhaustively. Connection histories - '
+                'every script of every role (forward, tunnel, web, reverse) x every prefix x every kind of abort (client close / reset / '
+                'half-close, upstream close / reset / half-close, connect refusal / timeout / resolution failure / unreachable, every '
+                'socket error injected at every call), keep-alive conversations and grammar-mutated inputs - run on the REAL handler '
+                'stack; the connection is then ended (client leaves, idle timeout, reaper), garbage collected, a census taken, and the '
+                'history repeated three times on the same worker. TLC (TraceRes) steps the descriptor-level event log through the '
+                'discipline and judges census and growth.',
+        'design_ref': 'DESIGN.md section 6, C10',
+        'note': 'Trusted: TLC, SimNet descriptor numbering / finalisation / selector semantics. Remote executors are not exercised. One '
+                'known finding (reverse proxy replaces its upstream without closing it).',
+        'technique': 'TLA+ resource discipline (Resources) exhaustively checked + TLC trace validation (TraceRes) of descriptor-level logs '
+                     'and census of enumerated connection histories with aborts and injected faults',
+    },
     'C12': {
         'text': 'Expected(request, route table, rewrite option) is written in TLA+ (TraceReverse over Target.tla ParseUrl / UrlAuthority and '
                 'the reference HTTP parser): some matching route decides, any of its URLs may be chosen (random.choice = nondeterminism of '
